@@ -1,12 +1,12 @@
 import KyupyVerif.Proofs.WaveCircuit
 import KyupyVerif.Proofs.WaveMono
 import KyupyVerif.Proofs.WaveMember
+import KyupyVerif.Proofs.WaveAffine
 /-! # C04 — transitions stay inside the static-timing window and move rigidly with inputs
 
 Model: `Wave.waveEval` / `Wave.simWave` (transcription of `_wave_eval`, tied by the correspondence of C03).
 Proved here for every op program: (1) the static-timing window, (2) strict monotonicity for polarity-
-independent delays. The rigid-motion clauses (shift by any amount, scaling by a power of two) are decided
-by the oracle on the real code only (`shift_scale_partial` below records what is missing). -/
+independent delays, (3) rigid motion under `t ↦ k·t + s` (shift, positive-integer scaling incl. powers of two). -/
 namespace KV.C04
 open KV KV.Sig KV.Wave
 
@@ -152,9 +152,51 @@ example : (waveEval 0x8888 (fun i p q => if i = 0 then (if p && q then 18 else 0
     (fun i => if i = 0 then [T.fin 19] else if i = 1 then [T.fin 33, T.fin 34, T.fin 39] else []) (fun _ => T.tmax) 16).1
     = [T.fin 51, T.fin 44, T.fin 57] := by decide +kernel
 
-/- what is NOT proved: `waveEval (shift s ws) = shift s (waveEval ws)` and the analogous statement for scaling
-    times and delays by a positive integer. Both are checked on the real code by the oracle (harness/c04.py)
-    for random shifts and power-of-two scales. Kept here so the gap stays visible. -/
--- (no theorem: see DESIGN.md, C04 partial)
+/-! ## (3) rigid motion: shifting all input transitions by `s` shifts every transition by `s`; scaling all times
+and delays by a positive integer factor `k` (in particular a power of two) scales every transition by `k` -/
+
+def MoveRel (k s : Int) (w w' : Wv) : Prop := w.term.isTerm = true ∧ w' = w.aff k s
+
+theorem gate_moves (k s : Int) (hk : 0 < k) (cfg : WCfg) (op : Op) (hd : ∀ l p q, 0 ≤ cfg.delay l p q) (hc : 4 ≤ cfg.cap op.out)
+    (xs xs' : List Wv) (hok : ∀ x ∈ xs, x.ok) (hxy : All2 (MoveRel k s) xs xs') :
+    MoveRel k s (waveSem cfg op xs) (waveSem ⟨fun l p q => k * cfg.delay l p q, cfg.cap⟩ op xs') := by
+  have hxs' : xs' = xs.map (Wv.aff k s) := by
+    induction hxy with
+    | nil => rfl
+    | cons h _ ih =>
+      rw [List.map_cons, ← h.2, ih (fun x hx => hok x (List.mem_cons_of_mem _ hx))]
+  refine ⟨(waveSem_ok cfg op xs hd hc hok).2, ?_⟩
+  rw [hxs']
+  exact waveSem_aff k s hk cfg op xs (fun i => (slot_ok hok i).2)
+
+/-- **every program**: rigid motion of all input waveforms (times `t ↦ k·t + s`, delays `d ↦ k·d`, `k > 0`)
+    moves every waveform on every signal rigidly. `k = 1`: shift by any amount `s`; `s = 0`: scaling. -/
+theorem rigid_motion (k s : Int) (hk : 0 < k) (cfg : WCfg) (ops : List Op) (hg : cfg.Good ops) (env : Nat → Wv)
+    (henv : ∀ l, (env l).ok) (l : Nat) :
+    simWave ⟨fun l p q => k * cfg.delay l p q, cfg.cap⟩ ops (fun x => (env x).aff k s) l = (simWave cfg ops env l).aff k s := by
+  -- carry well-formedness of the reference run along
+  have key := execG_rel_on (fun (w : Wv) (w' : Wv) => w.ok ∧ w' = w.aff k s) (waveSem cfg)
+    (waveSem ⟨fun l p q => k * cfg.delay l p q, cfg.cap⟩) ops ?_ env (fun x => (env x).aff k s) (fun x => ⟨henv x, rfl⟩) l
+  · exact key.2
+  · intro op hop xs xs' hxy
+    have hok : ∀ x ∈ xs, x.ok := hxy.forall_left (fun _ _ h => h.1)
+    refine ⟨waveSem_ok cfg op xs hg.delay_nonneg (hg.cap_ge op hop) hok, ?_⟩
+    have h2 : All2 (MoveRel k s) xs xs' := by
+      clear hok
+      induction hxy with
+      | nil => exact .nil
+      | cons h _ ih => exact .cons ⟨h.1.2, h.2⟩ ih
+    exact (gate_moves k s hk cfg op hg.delay_nonneg (hg.cap_ge op hop) xs xs' hok h2).2
+
+theorem shift_invariance (s : Int) (cfg : WCfg) (ops : List Op) (hg : cfg.Good ops) (env : Nat → Wv)
+    (henv : ∀ l, (env l).ok) (l : Nat) :
+    simWave cfg ops (fun x => (env x).aff 1 s) l = (simWave cfg ops env l).aff 1 s := by
+  have := rigid_motion 1 s (by decide) cfg ops hg env henv l
+  simpa using this
+
+/-- non-vacuity: shifting the NAND example of C03 by 7 -/
+example : (waveSem ⟨fun _ _ _ => 1, fun _ => 4⟩ ⟨0x7777, 7, [0, 1, 9, 9]⟩
+    [(⟨[T.tmin], T.tmax⟩ : Wv).aff 1 7, (⟨[T.fin 3], T.tmax⟩ : Wv).aff 1 7, Wv.empty, Wv.empty])
+    = (⟨[T.tmin, T.fin 4], T.tmax⟩ : Wv).aff 1 7 := by decide +kernel
 
 end KV.C04
